@@ -278,6 +278,8 @@ def check_strings(ctx, thorough):
     alpha = ''.join(chr(i) for i in range(32, 127) if chr(i) != '"') + '\t\x0b\x0c\x1c\x1d\x1e\x1f\r'
     cases = ['left\x0cright', 'a\x0bb', 'x\x1cy\x1dz\x1e', '\x1f', 'cr\rcr', '#', '# not a comment', '{', '}', '[x]', 'end', 'a\\b', '\\n', "it's", '%', '{} {}', '12:30', 'H', ' ', '  lead and trail  ', '-', '+', 'and', 'or',
              '<=', 'print', 'a\\', '\\', '\\\\', 'été', '中', '\U0001F4A1 lamp', '\x7f', '']
+    # every single character on its own (a string that is exactly a mark: ] [ { } ( ) - + ...), and pairs of marks
+    cases += [c for c in alpha if c not in ' \t\x0b\x0c\x1c\x1d\x1e\x1f\r\\'] + ['[]', ']]', '][', '{}', '()', ')', '((', '*:*', '::']
     for _ in range(3000 if thorough else 250):
         cases.append(''.join(rng.choice(alpha) for _ in range(rng.randint(1, 12))))
     for s in cases:
